@@ -30,7 +30,7 @@ POSITIONS = {
     "function": re.compile(r"^c\d+_(f\d+|rec)$"),
     "type": re.compile(r"^C\d+[A-Z][A-Za-z]*\d+$"),
     "method": re.compile(r"^(calc|bump|label)$"),
-    "field": re.compile(r"^(x|y|n|name|tag|w|total|flag)\d$"),
+    "field": re.compile(r"^((x|y|n|name|tag|w|total|flag)\d|child\d)$"),
     "variant": re.compile(r"^(Circle|Rect|Empty|Move|Stop|Num|Word)$"),
 }
 IDENT = re.compile(r"[A-Za-z_][A-Za-z0-9_]*")
@@ -212,14 +212,25 @@ def main(tier, seed, replay=None):
     q13 = quarantined("C13")
     rng = random.Random(seed * 61 + 23)
     nhosts = 14 if quick else 220
-    per_host = 12 if quick else 24
-    hosts = []
-    tries = 0
-    while len(hosts) < nhosts and tries < nhosts * 4:
-        tries += 1
-        c = gprog.gen_case(rng, str(len(hosts)), avoid, nstmts=rng.randint(5, 10))
-        text = casecheck.program_text([c])
-        hosts.append(text)
+    per_host = 16 if quick else 40
+    # hosts: generate a pool and keep the ones that add constructs in which a name is *used* in a new way (greedy feature cover)
+    RELEVANT = ("decl.class", "model.nested_field", "assign.through_place", "place.list_elem_field", "place.nested_field", "model.field_default",
+                "model.ctor_uses_default", "model.ctor_reordered", "model.method_mut", "model.method_str", "model.method_getter", "enum.payload",
+                "match.unqualified_pattern", "match.case_style", "match.wildcard", "list.comp", "comp.filter", "fn.default_param", "name.reuse_dead",
+                "field.set", "field.aug", "method.mut_call", "stmt.shadow_block", "stmt.for_str", "stmt.while", "decl.list_of_models", "str.fstring")
+    pool = []
+    for i in range(nhosts * 6):
+        c = gprog.gen_case(rng, str(i), avoid, nstmts=rng.randint(5, 10))
+        pool.append(c)
+    hosts, covered = [], {}
+    while len(hosts) < nhosts and pool:
+        def gain(c):
+            return sum(1.0 / (1 + covered.get(f, 0)) for f in c["features"] if f in RELEVANT or f.startswith("place."))
+        best = max(pool, key=gain)
+        pool.remove(best)
+        for f in best["features"]:
+            covered[f] = covered.get(f, 0) + 1
+        hosts.append(casecheck.program_text([best]))
     host_res = run_text_jobs(hosts)
     plans = []
     for text, hr in zip(hosts, host_res):
@@ -236,13 +247,27 @@ def main(tier, seed, replay=None):
         r = random.Random(rng.getrandbits(48))
         cells = []
         for pos in sorted(by_pos):
-            for new in r.sample(name_candidates(pos, r), min(3, len(name_candidates(pos, r)))):
-                if new in ids or new in INCAN_KW:
-                    continue
-                if ("%s|%s" % (pos, name_class(new))) in q13 or ("name|" + new) in q13:
-                    continue
-                cells.append((pos, r.choice(sorted(by_pos[pos])), new))
-        r.shuffle(cells)
+            ids_here = sorted(by_pos[pos])
+            for old_id in (r.sample(ids_here, 4) if len(ids_here) > 4 else ids_here):
+                cands = [n for n in name_candidates(pos, r) if n not in ids and n not in INCAN_KW
+                         and ("%s|%s" % (pos, name_class(n))) not in q13 and ("name|" + n) not in q13]
+                kws = [n for n in cands if name_class(n) == "rust_keyword"]
+                rest = [n for n in cands if name_class(n) != "rust_keyword"]
+                # every identifier of every position meets one Rust keyword (where the position admits one) and one other hostile name
+                for group in (kws, rest):
+                    if group:
+                        cells.append((pos, old_id, r.choice(group)))
+        # round-robin over positions, so that the rarer ones (field, method, type, variant) are never crowded out by locals
+        groups = {}
+        for c in cells:
+            groups.setdefault(c[0], []).append(c)
+        for g in groups.values():
+            r.shuffle(g)
+        cells = []
+        while any(groups.values()):
+            for pos in sorted(groups):
+                if groups[pos]:
+                    cells.append(groups[pos].pop())
         for pos, old, new in cells[:per_host]:
             plans.append((text, hb, pos, old, new))
     ren_res = run_text_jobs([rename(t, old, new) for (t, hb, pos, old, new) in plans])
